@@ -158,6 +158,8 @@ def describe(v):
                 return ('neg', t[1][1])
             if t[0] == 'index':
                 return ('index', t[1], t[2])
+            if t[0] == 'not' and isinstance(t[1], tuple) and t[1][0] == 'in':
+                return ('not', t[1][1])
         return ('top',)
     return ('top',)
 
@@ -188,6 +190,8 @@ def obtained_at(desc, xs, out_bits, tables=None):
         return xs[desc[1]] & mask(out_bits)
     if k == 'neg':
         return (-xs[desc[1]]) & mask(out_bits)
+    if k == 'not':
+        return (~xs[desc[1]]) & mask(out_bits)
     return None
 
 
@@ -208,7 +212,7 @@ def fmt_cell(cell):
 
 
 def run_cells(ctx, prog, rule, fn_label, path, mkargs, cellsets, spec, out_bits, gargs=None, interp=None,
-              panic_is_violation=True, max_product=6000, exempt_panic=None, exhaustive_limit=0):
+              panic_is_violation=True, max_product=6000, exempt_panic=None, exhaustive_limit=0, extract=None, flat=None):
     """evaluate `path` on the product of `cellsets` (one list of (lo,hi) per argument).
     mkargs(cell_tuple) -> abstract argument list.  spec(xs) -> expected output bits, or None (excluded).
     Returns statistics dict."""
@@ -225,7 +229,8 @@ def run_cells(ctx, prog, rule, fn_label, path, mkargs, cellsets, spec, out_bits,
     for cell in itertools.product(*cellsets):
         stats['cells'] += 1
         try:
-            out = I.run(path, mkargs(cell), gargs)
+            cell_args = mkargs(cell)
+            out = I.run(path, cell_args, gargs)
         except Exception as e:  # interpreter limitation: not a verdict
             stats['unsupported'] += 1
             ctx.undecided.setdefault('unsupported', []).append('%s %s: %s: %s' % (fn_label, fmt_cell(cell), type(e).__name__, e))
@@ -238,28 +243,45 @@ def run_cells(ctx, prog, rule, fn_label, path, mkargs, cellsets, spec, out_bits,
             wits = list(itertools.product(*[range(lo, hi + 1) for lo, hi in cell]))
             exhaustive = True
         else:
-            wits = list(itertools.product(*[witnesses(lo, hi, 5 if len(cell) > 1 else 9) for lo, hi in cell]))
+            k = len(cell)
+            if k <= 3:
+                wits = list(itertools.product(*[witnesses(lo, hi, {1: 9, 2: 5, 3: 3}[k]) for lo, hi in cell]))
+            else:
+                wits = list(itertools.product(*[sorted({lo, hi}) for lo, hi in cell]))
+                if len(wits) > 300:
+                    wits = wits[:100] + wits[len(wits) // 2 - 50:len(wits) // 2 + 50] + wits[-100:]
             exhaustive = False
         if out.kind == 'return':
-            desc = describe(out.value)
-            if desc[0] == 'top' or desc[0] == 'tuple':
+            desc = describe(extract(I, out, cell_args) if extract else out.value)
+            if isinstance(out_bits, (list, tuple)) and desc[0] != 'tuple':
+                desc = ('tuple', [desc])
+            multi = desc[0] == 'tuple'
+            if desc[0] == 'top' or (multi and (out_bits is None or not isinstance(out_bits, (list, tuple)) or any(d[0] in ('top', 'tuple') for d in desc[1]))):
                 stats['general_path'] += 1
                 continue
-            stats['decided_' + desc[0]] += 1
+            stats['decided_' + (desc[0] if not multi else 'const')] += 1
             stats['points_decided'] += size
             if exhaustive:
                 stats['points_checked_exhaustively'] += size
             bad = None
             nchk = 0
             for xs in wits:
-                exp = spec(xs)
+                fx = flat(xs) if flat else xs
+                exp = spec(fx)
                 if exp is None:
                     stats['excluded'] += 1
                     continue
                 nchk += 1
-                got = obtained_at(desc, xs, out_bits, I.tables)
+                if multi:
+                    got = [obtained_at(d, fx, b, I.tables) for d, b in zip(desc[1], out_bits)]
+                    expm = [e & mask(b) for e, b in zip(exp, out_bits)]
+                    if got != expm:
+                        bad = (fx, sum(e << (64 * i) for i, e in enumerate(reversed(expm))), sum(g << (64 * i) for i, g in enumerate(reversed(got))))
+                        break
+                    continue
+                got = obtained_at(desc, fx, out_bits, I.tables)
                 if got != (exp & mask(out_bits)):
-                    bad = (xs, exp, got)
+                    bad = (fx, exp, got)
                     break
             stats['witnesses'] += nchk
             if bad:
@@ -279,7 +301,7 @@ def run_cells(ctx, prog, rule, fn_label, path, mkargs, cellsets, spec, out_bits,
                 stats['excluded'] += 1
                 continue
             # a definite panic / non-termination on the whole cell: violation unless the spec excludes all witnesses
-            if panic_is_violation and any(spec(xs) is not None for xs in wits):
+            if panic_is_violation and any(spec(flat(xs) if flat else xs) is not None for xs in wits):
                 ctx.finding(rule, fn_label, 'cell=' + fmt_cell(cell),
                             'on cell %s the function does not return: %s %s at %s' % (fmt_cell(cell), out.kind, out.value, out.where),
                             {'cell': cell, 'event': out.kind, 'kind': out.value, 'where': out.where, 'function': path, 'why': out.why})
